@@ -49,15 +49,23 @@ def check_dispatch(ctx, facts=None):
                 cases.append("%d %d %d %d" % (nightly, host & ~mask & 7, sup, mask))
         imp = runner.impl("dispatch", cases, config=config)
         mod = runner.model("dispatch", cases)
-        bad = [(c, a, b) for c, a, b in zip(cases, imp, mod) if a != b]
+        chain = [(m or "").split(" ")[0] for m in mod]
+        spec = [((m or "").split(" ") + [""])[1] for m in mod]
+        bad = [(c, a, sp) for c, a, sp in zip(cases, imp, spec) if a != sp]
         for c, a, b in bad[:3]:
             n, avail, sup, mask = c.split()
             ctx.violation("dispatch-select:%s" % c,
-                          "dispatch! (%s build) with available features %s and supplied slots %s invoked '%s'; the documented "
-                          "priority order selects '%s'" % (config, avail, sup, a, b),
-                          {"kind": "input", "case": "dispatch " + c, "build": config, "observed": a, "expected": b})
+                          "dispatch! (%s build) with available features (bit0 avx512, bit1 avx2, bit2 fma) = %s and supplied slots "
+                          "(bit0 avx512, bit1 avx2fma, bit2 avx2, bit3 neon) = %s invoked the '%s' candidate; the documented priority "
+                          "order with each back end's required features selects '%s'" % (config, avail, sup, a, b),
+                          {"kind": "input", "case": "dispatch " + c, "build": config, "observed": a, "expected_by_spec": b,
+                           "feature_mask_applied_through_hook": mask})
+        drift = [(c, a, ch) for c, a, ch in zip(cases, imp, chain) if a != ch]
+        for c, a, ch in drift[:3]:
+            ctx.broke("correspondence", "D(i): real dispatch! vs the regenerated chain, case %s (%s)" % (c, config),
+                      {"impl": a, "model_chain": ch})
         ctx.cover(len(cases), distinct_keys=["disp:%s:%s" % (config, c) for c in cases],
-                  samples=[{"case": cases[37], "impl": imp[37], "model": mod[37]}],
+                  samples=[{"case": cases[37], "impl": imp[37], "model_chain_and_spec": mod[37]}],
                   rule="(D)(i) real cfavml::dispatch! with recording closures: 8 feature masks x 16 supplied-slot subsets "
                        "x {stable, nightly}; exhaustive", dist={"dispatch_" + config: len(cases)})
         ctx.extra.setdefault("correspondence_D_dispatch", {})[config] = {"cases": len(cases), "disagreements": len(bad),
@@ -107,8 +115,12 @@ def gen_safe_cases(ctx, facts, config, entries, lens, mismatches, masks, forms=(
                     b = g.vec(ty, lb2, cls, nonzero=is_div)
                     r = g.vec(ty, lr2, "random")
                     v = g.vec(ty, 1, cls, nonzero=is_div)[0]
-                    for mask in masks:
-                        cases.append(safe_line(sidx, s, form, D, debug, nightly, host & ~mask & 7, mask, "R", v, a, b, r))
+                    for mi, mask in enumerate(masks):
+                        # slices flush against the guard page on the right ("R": catches accesses past the end) and on
+                        # the left ("L": catches accesses before the start), alternating so that every (routine, shape)
+                        # meets both placements across the masks / lengths
+                        place = "R" if (mi + n + len(cases)) % 2 == 0 else "L"
+                        cases.append(safe_line(sidx, s, form, D, debug, nightly, host & ~mask & 7, mask, place, v, a, b, r))
                         meta.append((sidx, s, form, n, (la2 - n, (lb2 - n) if kind in ('Dist', 'Vert') else 0, (lr2 - n) if kind in ('Vert', 'Value') else 0, (D - n) if D is not None else 0), mask))
     return cases, meta
 
